@@ -23,7 +23,8 @@ COMMANDS = [('resume', 'resume'), ('r', 'resume'), ('wlresume', 'resume'), ('RES
 
 
 def step(ctx, case):
-    pre_paused, sel, second_known, via = case
+    pre_paused, sel, second_known, via = case[:4]
+    reuse = case[4] if len(case) > 4 else False
     from harness import gdbworld
     from core import matcher
     w = gdbworld.make_plugin()
@@ -35,7 +36,11 @@ def step(ctx, case):
         gdbworld.fire_message(w, A1, 1, 'sync', True, 1)
         if second_known:
             gdbworld.fire_message(w, A2, 1, 'sync', True, 2)
-        conns = w.manager.connections()
+        if reuse:
+            # libwayland destroyed the first connection and a new one lives at the same address
+            gdbworld.fire_destroy(w, A1)
+            gdbworld.fire_message(w, A1, 1, 'sync', True, 3)
+        conns = [c for c in w.manager.connections() if c.is_open()]
         if sel is not None:
             if sel >= len(conns):
                 ctx.assume(False)
@@ -51,11 +56,14 @@ def step(ctx, case):
         # ---- one message
         on = ctx.choose([0, 1], 'msg_conn')
         addr = [A1, A2][on]
-        ret = gdbworld.fire_message(w, addr, ctx.choose([1, 2], 'thread'), 'sync', ctx.choose([True, False], 'sent'), 7)
-        conns = w.manager.connections()
-        mconn = [c for c in conns if c.is_open()][0] if not second_known and on == 0 else None
-        # which connection the message went to: the open one at that address (a new one if the address was unknown)
-        target = conns[0] if on == 0 else conns[1]
+        mkind = ctx.choose(['sync', 'set_title-empty', 'set_app_id-empty'], 'message_kind') if via == 'wl' else 'sync'
+        plain = mkind == 'sync' and via != 'wl'
+        ret = gdbworld.fire_message(w, addr, ctx.choose([1, 2], 'thread') if plain else 1 + on, mkind.split('-')[0], ctx.choose([True, False], 'sent') if plain else (on == 0), 7, strarg=None if mkind == 'sync' else '')
+        # which connection the message went to: the OPEN one at that address (a new one if the address was unknown)
+        target = w.manager.open_connections.get('gdb_conn:' + hex(addr))
+        ctx.check('the message is recorded on the open connection at its address', target is not None and len(target.messages()) > 0 and target.messages()[-1].args[-1].value == 7)
+        if target is None or not target.messages():
+            return
         msg = target.messages()[-1]
         selected = w.ctl.current_connection
         onsel = selected is None or selected is target
@@ -110,10 +118,10 @@ def step(ctx, case):
             ctx.check('selection after the command', w.ctl.current_connection is exp_sel)
             if not (effect == 'stay' and words and 'breakpoint'.startswith(words[0]) and len(words) > 1):
                 on2 = ctx.choose([0, 1], 'msg2_conn')
-                if on2 < len(w.manager.connections()):
+                if True:
                     w.gdb._State.executed[:] = []
                     ret2 = gdbworld.fire_message(w, [A1, A2][on2], 1, 'sync', True, 8)
-                    t2 = w.manager.connections()[on2]
+                    t2 = w.manager.open_connections.get('gdb_conn:' + hex([A1, A2][on2]))
                     m2 = t2.messages()[-1]
                     if exp_sel is None or exp_sel is t2:
                         v2 = B.verdict(m2)
@@ -180,6 +188,8 @@ def obligations(tier):
                     continue
                 for via in (('wl', 'sub') if tier == 'quick' else ('wl', 'w', 'wayland', 'sub')):
                     cases.append((pre_paused, sel, second, via))
+                    if via == 'wl' and not pre_paused:
+                        cases.append((pre_paused, sel, second, via, True))
     bounds = ('pre-state: paused or not x selection none/first/second x second connection known or not; message on either address from either thread in either direction; '
               '%d command spellings through the wl / wl<sub>%s GDB commands; breakpoint and filter verdicts symbolic' % (len(COMMANDS), '' if tier == 'quick' else ' / w / wayland'))
     return [Ob('message-then-command', 'symx', 'stop() verdict, notice, and what GDB is told to do after a command, from an arbitrary state', FUNCS, bounds, step, cases=cases,
